@@ -111,6 +111,19 @@ def _():
     c = PM('platform_version == "a"').validate({"platform_version": "a,b"})
     return a and b and not c
 
+@w("D34")
+def _():
+    a = PM('sys_platform not in "win32, linux, cygwin"'); b = PM("'cygwi' not in sys_platform")
+    u = a.union(b); i = PM('sys_platform != "a" and sys_platform != "b"').intersect(PM('"a" not in sys_platform'))
+    ok = u.validate({"sys_platform": "linux"}) and i.validate({"sys_platform": "c"}) and not i.validate({"sys_platform": "xay"})
+    j = PM('"a" not in sys_platform and sys_platform != "b"').intersect(PM('sys_platform == "ab"'))
+    return ok and not j.validate({"sys_platform": "ab"})
+
+@w("D35")
+def _():
+    m = PM("'a' not in sys_platform or 'b' not in sys_platform")
+    return not m.is_any() and not m.validate({"sys_platform": "ab"}) and m.validate({"sys_platform": "a"})
+
 if __name__ == "__main__":
     ids = sys.argv[1:] or list(W)
     bad = 0
